@@ -37,6 +37,7 @@ ASSUMPTIONS = [
 
 
 def strategy(tier):
+    S.NONUNITARY_FOCK[0] = True   # the statement covers non-unitary user operators through non-renormalising types
     # the operation under test is often preceded by other public calls (the property quantifies over histories)
     hist = ["op", "op", "op", "op", "measure", "kraus", "struct", "comp", "resize"]
     return st.one_of(S.program_case(["op"], max_steps=3), S.program_case(["op"], max_steps=3), S.program_case(hist, max_steps=5, min_steps=2),
